@@ -51,7 +51,10 @@ Proof.
   split; [apply eventual_tip_b_sound; vm_compute; reflexivity|].
   split; [apply files_agree_b_sound; vm_compute; reflexivity|].
   split; [reflexivity|]. split; [reflexivity|]. split; [reflexivity|]. split; [reflexivity|].
-  split; [vm_compute; repeat (constructor; [reflexivity|]); constructor|].
+  split.
+  { apply Forall_forall. intros b Hb.
+    assert (H : forallb (fun b => bnum b <? file_bound) cx_merged = true) by (vm_compute; reflexivity).
+    rewrite forallb_forall in H. apply N.ltb_lt. apply H. exact Hb. }
   exists (cx_b 5). split; [vm_compute; tauto | vm_compute; reflexivity].
 Qed.
 
